@@ -273,7 +273,7 @@ fn synced(st: &HostState, touched: &BTreeSet<String>) -> Result<(), String> {
 
 fn execute_history(run: &Run, opts: &ExecOpts) -> Outcome {
     seed_this_thread_hash_keys(run.session_hash_seed);
-    let shared: Shared = Rc::new(RefCell::new(HostState { fs: run.project.files.clone(), ..Default::default() }));
+    let shared: Shared = Rc::new(RefCell::new(crate::host::new_host_state(run.project.files.clone())));
     session::install_host(&shared);
     let entry = run.project.entry.clone();
     let settings = run.project.settings.to_json();
